@@ -43,6 +43,9 @@ func buildFasta(cas c19case) ([]byte, []fastaRec) {
 	var recs []fastaRec
 	for i, l := range cas.Lens {
 		r := fastaRec{name: fmt.Sprintf("s%d", i)}
+		if i >= 1 && i == len(cas.Lens)-1 {
+			r.name = "#" + r.name // any non-blank character may start a name; '#' and '>' are special elsewhere
+		}
 		buf.WriteString(">" + r.name)
 		if cas.Desc {
 			buf.WriteString(" d")
@@ -124,7 +127,6 @@ func c19one(c *Ctx, cas c19case, all bool) {
 				return
 			}
 		}
-		f := fai.NewFile(bytes.NewReader(data), idx2)
 		readAll := func(s *fai.Seq, bufN, want int) ([]byte, string) {
 			var out []byte
 			buf := make([]byte, bufN)
@@ -140,44 +142,50 @@ func c19one(c *Ctx, cas c19case, all bool) {
 			}
 			return out, "no io.EOF within the horizon (no progress)"
 		}
-		for _, r := range recs {
-			if !all && r.name != cas.Name {
-				continue
+		for ri, src := range []io.ReaderAt{bytes.NewReader(data), eofReaderAt(data)} {
+			f := fai.NewFile(src, idx2)
+			if ri == 1 {
+				cls += ",source-returns-EOF-with-the-last-bytes"
 			}
-			for _, bufN := range []int{1, 2, 3, 7, 64} {
-				if !all && bufN != cas.Buf {
+			for _, r := range recs {
+				if !all && r.name != cas.Name {
 					continue
 				}
-				s, err := f.Seq(r.name)
-				if err != nil {
-					c.Violate("Seq:error", err.Error(), cas)
-					return
-				}
-				got, e := readAll(s, bufN, len(r.seq))
-				c.Eval(1)
-				if e != "" || !bytes.Equal(got, r.seq) {
-					cc := cas
-					cc.Name, cc.Start, cc.End, cc.Buf = r.name, 0, len(r.seq), bufN
-					c.Violate("Seq:wrong:"+cls, fmt.Sprintf("file %q: Seq(%s) with %d-byte buffer returned %q (%s), want %q", data, r.name, bufN, got, e, r.seq), cc)
-					return
-				}
-				for st := 0; st <= len(r.seq); st++ {
-					for en := st; en <= len(r.seq); en++ {
-						if !all && (st != cas.Start || en != cas.End) {
-							continue
-						}
-						s, err := f.SeqRange(r.name, st, en)
-						if err != nil {
-							c.Violate("SeqRange:error", fmt.Sprintf("SeqRange(%s,%d,%d): %v", r.name, st, en, err), cas)
-							return
-						}
-						got, e := readAll(s, bufN, en-st)
-						c.Eval(1)
-						if e != "" || !bytes.Equal(got, r.seq[st:en]) {
-							cc := cas
-							cc.Name, cc.Start, cc.End, cc.Buf = r.name, st, en, bufN
-							c.Violate("SeqRange:wrong:"+cls, fmt.Sprintf("file %q: SeqRange(%s,%d,%d) with %d-byte buffer returned %q (%s), want %q", data, r.name, st, en, bufN, got, e, r.seq[st:en]), cc)
-							return
+				for _, bufN := range []int{1, 2, 3, 7, 64} {
+					if !all && bufN != cas.Buf {
+						continue
+					}
+					s, err := f.Seq(r.name)
+					if err != nil {
+						c.Violate("Seq:error", err.Error(), cas)
+						return
+					}
+					got, e := readAll(s, bufN, len(r.seq))
+					c.Eval(1)
+					if e != "" || !bytes.Equal(got, r.seq) {
+						cc := cas
+						cc.Name, cc.Start, cc.End, cc.Buf = r.name, 0, len(r.seq), bufN
+						c.Violate("Seq:wrong:"+cls, fmt.Sprintf("file %q: Seq(%s) with %d-byte buffer returned %q (%s), want %q", data, r.name, bufN, got, e, r.seq), cc)
+						return
+					}
+					for st := 0; st <= len(r.seq); st++ {
+						for en := st; en <= len(r.seq); en++ {
+							if !all && (st != cas.Start || en != cas.End) {
+								continue
+							}
+							s, err := f.SeqRange(r.name, st, en)
+							if err != nil {
+								c.Violate("SeqRange:error", fmt.Sprintf("SeqRange(%s,%d,%d): %v", r.name, st, en, err), cas)
+								return
+							}
+							got, e := readAll(s, bufN, en-st)
+							c.Eval(1)
+							if e != "" || !bytes.Equal(got, r.seq[st:en]) {
+								cc := cas
+								cc.Name, cc.Start, cc.End, cc.Buf = r.name, st, en, bufN
+								c.Violate("SeqRange:wrong:"+cls, fmt.Sprintf("file %q: SeqRange(%s,%d,%d) with %d-byte buffer returned %q (%s), want %q", data, r.name, st, en, bufN, got, e, r.seq[st:en]), cc)
+								return
+							}
 						}
 					}
 				}
@@ -186,8 +194,23 @@ func c19one(c *Ctx, cas c19case, all bool) {
 	})
 }
 
+// eofReaderAt is a conforming io.ReaderAt that reports io.EOF together with the last bytes of
+// the data (as the io.ReaderAt contract allows), not on a later call.
+type eofReaderAt []byte
+
+func (d eofReaderAt) ReadAt(p []byte, off int64) (int, error) {
+	if off < 0 || off > int64(len(d)) {
+		return 0, io.EOF
+	}
+	n := copy(p, d[off:])
+	if off+int64(n) >= int64(len(d)) {
+		return n, io.EOF
+	}
+	return n, nil
+}
+
 func c19(c *Ctx) {
-	c.Rule = "FASTA files: N in {1,2,3} records x line width W in 1..4 (thorough: 1..8 and 61, and N=4 for W<=4) x sequence lengths (N=1: every length 1..3W (W=61: within one base of a line end); N=2: pairs over {1,W-1,W,W+1,2W,2W+1,3W}; N=3, 4: tuples over {1,W,W+1}) x line end {LF,CRLF} x final newline {yes,no} x description {no,' d'} x blank line between records {no,yes}; bases cycle through ACGT shifted per record. Oracle: NewIndex == true length/start/bases-per-line/bytes-per-line (the latter two where the layout determines them), WriteTo->ReadFrom->WriteTo identical, and for every record, every 0<=start<=end<=length and buffer size in {1,2,3,7,64}: SeqRange+Read loop returns exactly seq[start:end] then io.EOF within a horizon; Seq likewise. Non-trivial: files whose sequence spans more than one line or that hold several records."
+	c.Rule = "FASTA files: N in {1,2,3} records x line width W in 1..4 (thorough: 1..8 and 61, and N=4 for W<=4) x sequence lengths (N=1: every length 1..3W (W=61: within one base of a line end); N=2: pairs over {1,W-1,W,W+1,2W,2W+1,3W}; N=3, 4: tuples over {1,W,W+1}) x line end {LF,CRLF} x final newline {yes,no} x description {no,' d'} x blank line between records {no,yes}; bases cycle through ACGT shifted per record; the last record of a multi-record file has a name starting with '#'; every file is read through bytes.Reader and through an io.ReaderAt that returns io.EOF together with the last bytes. Oracle: NewIndex == true length/start/bases-per-line/bytes-per-line (the latter two where the layout determines them), WriteTo->ReadFrom->WriteTo identical, and for every record, every 0<=start<=end<=length and buffer size in {1,2,3,7,64}: SeqRange+Read loop returns exactly seq[start:end] then io.EOF within a horizon; Seq likewise. Non-trivial: files whose sequence spans more than one line or that hold several records."
 	if c.Replay != nil {
 		var cas c19case
 		if err := json.Unmarshal(c.Replay, &cas); err != nil {
